@@ -33,6 +33,21 @@ def check(F, rep, tier):
     rep.floor("R14", "local functions reachable from run", len(local), 400)
     # ---- R14.1 clock ----------------------------------------------------------------
     n_clock = 0
+    def judge(fv, bi):
+        """where the value of the clock read in block bi of fv (a function with its local helpers spliced in) goes"""
+        t = fv.blocks[bi]["t"]
+        sinks = mir.forward_sinks(fv, t[3][0])
+        kinds = {(s_[0], tuple(s_[1]) if s_[0] == "write" else s_[2] if s_[0] == "aggfield" else s_[1]) for s_ in sinks}
+        if sinks and all(s_[0] == "aggfield" and s_[2] == "current_timestamp" for s_ in sinks): return "ts", None
+        if sinks and all(s_[0] == "write" and s_[1][-1] == "bumped_timestamp" for s_ in sinks):
+            why = []
+            for s_ in sinks:
+                gs = mir.guards_of(fv, s_[2])
+                if not any(is_dirty_true(F, fv, g) for g in gs) and not dirty_some_true(fv, gs):
+                    why.append("write in bb%d not guarded by dirty == Some(true) (guards: %s)" % (s_[2], [str(g[0][:2]) for g in gs]))
+            return ("bumped", None) if not why else ("unguarded", why)
+        if any(s_[0] == "ret" for s_ in sinks): return "ret", kinds
+        return "escape", kinds
     for f in F.fns.values():     # every local function, reachable or not: a clock read has no business elsewhere either
         for bi, t in f.calls():
             if not mir.call_matches(t, CLOCK): continue
@@ -41,23 +56,35 @@ def check(F, rep, tier):
             key = f.path.replace("crate::", "") + "#" + str(sum(1 for b2, t2 in f.calls() if b2 < bi and mir.call_matches(t2, CLOCK)))
             if not mir.call_matches(t, ("chrono::Utc::now", "chrono::offset::Utc::now")):
                 rep.bad("R14.1", "clock-kind:" + key, "wall clock read through %s (only Utc::now is allowed)" % mir.callee(t), site); continue
-            sinks = mir.forward_sinks(f, t[3][0])
-            kinds = {(s[0], tuple(s[1]) if s[0] == "write" else s[2] if s[0] == "aggfield" else s[1]) for s in sinks}
-            if sinks and all(s[0] == "aggfield" and s[2] == "current_timestamp" for s in sinks):
+            # the value may be handed to a private helper (spliced in), or this function may itself be a helper that returns it
+            # (then it is judged in each caller, with this function spliced in)
+            views = [(mir.inlined(F, f, depth=3), bi)]
+            verdicts = []
+            for hop in range(3):
+                nxt = []
+                for fv, b_ in views:
+                    v, det = judge(fv, b_)
+                    if v != "ret": verdicts.append((v, det, fv)); continue
+                    base = F.fn(fv.path) or fv
+                    callers = {g.path for g, b2 in cg.sites.get(base.path, [])}
+                    if not callers: verdicts.append(("escape", det, fv)); continue
+                    for cp in sorted(callers):
+                        gi = mir.inlined(F, F.fn(cp), depth=4)
+                        hits = [b2 for b2, t2 in gi.calls() if mir.call_matches(t2, CLOCK) and gi.blocks[b2].get("from") is not None and (gi.blocks[b2].get("orig") or (None, None))[0] == f.path and (gi.blocks[b2].get("orig") or (None, None))[1] == bi]
+                        if not hits: verdicts.append(("escape", {("ret-into", cp)}, gi))
+                        for b2 in hits: nxt.append((gi, b2))
+                views = nxt
+                if not views: break
+            for fv, b_ in views: verdicts.append(("escape", {("ret", "beyond three helper levels")}, fv))
+            if all(v == "ts" for v, det, fv in verdicts):
                 rep.ok("R14.1", "clock read feeds only the template variable current_timestamp", sample=site, nontrivial_key=key)
-                continue
-            if sinks and all(s[0] == "write" and s[1][-1] == "bumped_timestamp" for s in sinks):
-                good = True; why = []
-                for s in sinks:
-                    gs = mir.guards_of(f, s[2])
-                    if not any(is_dirty_true(F, f, g) for g in gs):
-                        good = False; why.append("write in bb%d not guarded by dirty == Some(true) (guards: %s)" % (s[2], [str(g[0][:2]) for g in gs]))
-                if good:
-                    rep.ok("R14.1", "clock read feeds bumped_timestamp only under dirty == Some(true)", sample=site, nontrivial_key=key)
-                else:
-                    rep.bad("R14.1", "clock-unguarded:" + key, "the wall clock is written into bumped_timestamp without the dirty guard: %s" % why, site)
-                continue
-            rep.bad("R14.1", "clock-escape:" + key, "a wall-clock read flows to %s (allowed: template variable current_timestamp; bumped_timestamp under dirty == Some(true))" % sorted(map(str, kinds)), site)
+            elif all(v == "bumped" for v, det, fv in verdicts):
+                rep.ok("R14.1", "clock read feeds bumped_timestamp only under dirty == Some(true)", sample=site, nontrivial_key=key)
+            elif any(v == "unguarded" for v, det, fv in verdicts):
+                rep.bad("R14.1", "clock-unguarded:" + key, "the wall clock is written into bumped_timestamp without the dirty guard: %s" % [det for v, det, fv in verdicts if v == "unguarded"][0], site)
+            else:
+                kinds = set().union(*[det for v, det, fv in verdicts if v == "escape" and det])
+                rep.bad("R14.1", "clock-escape:" + key, "a wall-clock read flows to %s (allowed: template variable current_timestamp; bumped_timestamp under dirty == Some(true))" % sorted(map(str, kinds)), site)
     rep.floor("R14.1", "clock read sites", n_clock, 2)
     # ---- R14.2 zone -------------------------------------------------------------------
     n_dt = 0
@@ -160,6 +187,15 @@ def is_dirty_true(F, f, g):
     has_dirty = any(tx.endswith(".dirty") or ".dirty" in tx for tx in texts)
     has_true = any("Some(True)" in tx or "Some(true)" in tx for tx in texts)
     return has_dirty and has_true
+
+def dirty_some_true(f, gs):
+    """`matches!(self.vars.dirty, Some(true))` / `if let Some(true) = ..`: the Option's discriminant is Some and its payload is true"""
+    some = payload = False
+    for desc, pol, d in gs:
+        if desc[0] == "discr" and isinstance(pol, tuple) and pol[0] == "in" and set(pol[1]) == {"Some"} and any("dirty" in o.path_str() for o in mir.trace_place(f, desc[1])): some = True
+        if desc[0] == "place" and pol is True and any(not isinstance(e, str) and e[0] == "f" and e[2] == "dirty" for e in desc[1][1:]) and any(not isinstance(e, str) and e[0] == "d" and e[1] == "Some" for e in desc[1][1:]): payload = True
+        if pol is True and desc[0] not in ("call", "discr", "bin") and any("dirty" in o.path_str() for o in (mir.trace_place(f, desc[1]) if len(desc) > 1 and isinstance(desc[1], list) else [])): payload = True
+    return some and payload
 
 def current_dir_ok(F, f, bi):
     gs = mir.guards_of(f, bi)
